@@ -158,14 +158,13 @@ def run_xh(job, tier):
     if job["twin"]:
         T = min(T, 120)
     line = fn_line(m["file"], m["fn"])
-    cmd = [PY, "-m", "lib.xh_driver", "--report_all", "--per_condition_timeout", str(T)]
+    cmd = [PY, "-m", "lib.xh_driver", "%s:%d" % (m["file"], line), "--report_all", "--per_condition_timeout", str(T)]
     pp = tv(m, "per_path", tier, None)
     cmd += ["--per_path_timeout", str(pp if pp else max(10, T // 4))]
     if m.get("max_uninteresting"):
         cmd += ["--max_uninteresting_iterations", str(m["max_uninteresting"])]
     if m.get("unblock"):
         cmd += ["--unblock"] + list(m["unblock"])
-    cmd.append("%s:%d" % (m["file"], line))
     t0 = time.time()
     try:
         p = subprocess.run(cmd, cwd=ROOT, env=child_env(tier, job["part"], job["twin"]),
